@@ -3,21 +3,18 @@
     equals the hand-written model of Model/Audio.v (crop_bounds, num_repeats), error cases included:
     [None] on the translated side is exactly an [Err] on the model side. *)
 From Coq Require Import ZArith Bool Floats List.
-From NS Require Import Base.FloatBridge Gen.TrF Model.Audio.
+From NS Require Import Base.FloatBridge Base.TrTac Base.TrTacF Gen.TrF Model.Audio.
 Local Open Scope Z_scope.
 
 Definition opt_of_res {A} (r : res A) : option A := match r with Ok a => Some a | Err _ => None end.
 
 Lemma trf_crop_bounds_eq rate b t :
-  opt_of_res (crop_bounds rate b t) =
-  match trf_crop_begin rate b, trf_crop_total rate b t with
-  | Some a, Some n => Some (a, n)
-  | _, _ => None
-  end.
+  opt_of_res (crop_bounds rate b t) = trf_crop_bounds rate b t.
 Proof.
-  unfold crop_bounds, trf_crop_begin, trf_crop_total, py_int.
-  destruct (finb (b * f_of_Z rate)%float); [|reflexivity]. cbn zeta.
-  destruct (finb (t * f_of_Z rate)%float); reflexivity.
+  unfold crop_bounds, trf_crop_bounds, py_int.
+  first [ solve [ destruct (finb (b * f_of_Z rate)%float); [|reflexivity]; cbn zeta;
+                  destruct (finb (t * f_of_Z rate)%float); reflexivity ]
+        | unfold opt_of_res; trf_solve ].
 Qed.
 
 (** The only place where the two sides are not literally the same term: the model tests [rate =? 0] on the
@@ -35,7 +32,8 @@ Lemma trf_num_repeats_eq len rate d : rate_zero_agrees rate = true ->
 Proof.
   intros H. unfold rate_zero_agrees in H. apply Bool.eqb_prop in H.
   unfold num_repeats, trf_num_repeats, seq_duration. rewrite H.
-  destruct (rate =? 0); [reflexivity|]. cbn zeta.
-  destruct (PrimFloat.eqb (f_of_Z len / f_of_Z rate) 0)%float; [reflexivity|].
-  destruct (finb (d / (f_of_Z len / f_of_Z rate))%float); reflexivity.
+  first [ solve [ destruct (rate =? 0); [reflexivity|]; cbn zeta;
+                  destruct (PrimFloat.eqb (f_of_Z len / f_of_Z rate) 0)%float; [reflexivity|];
+                  destruct (finb (d / (f_of_Z len / f_of_Z rate))%float); reflexivity ]
+        | unfold opt_of_res; destruct (rate =? 0) eqn:?; trf_solve ].
 Qed.
